@@ -12,7 +12,8 @@ unsigned short nondet_u16() noexcept;
 unsigned nondet_u32() noexcept;
 unsigned long nondet_u64() noexcept;
 unsigned char vf_input(int id) noexcept;      // named input (shared across configurations)
-unsigned vf_enum(unsigned x, unsigned n) noexcept;  // assume x<n and make it enumerable
+unsigned vf_enum(unsigned x, unsigned n) noexcept;
+unsigned vf_param(int i) noexcept;            // concrete harness configuration parameter  // assume x<n and make it enumerable
 void vf_visible() noexcept;                  // scheduling point ("user code takes time")
 void vf_witness(int id) noexcept;            // reachability witness (must be satisfiable)
 void vf_observe(long v) noexcept;            // observation (translator validation / config equivalence)
